@@ -630,6 +630,43 @@ def db_m_blank_row_values(spec, wb, rng, fw):
     return False
 
 
+def db_m_blank_row_values_of(kind):
+    """all values (constant and years) of one population's row are blanked in a table of the given kind: a parameter that
+    also has a function, a parameter without one, a compartment, a characteristic"""
+
+    def f(spec, wb, rng, fw):
+        fpars = {n for n, row in fw.pars.iterrows() if isinstance(row["function"], str)}
+        wanted = {"function-parameter": fpars, "plain-parameter": set(fw.pars.index) - fpars, "compartment": set(fw.comps.index), "characteristic": set(fw.characs.index)}[kind]
+        labels = {}
+        for df in (fw.comps, fw.characs, fw.pars):
+            for code, row in df.iterrows():
+                labels[row["display name"]] = code
+        rows = []
+        for ws in wb.worksheets:
+            if ws.title in ("Population Definitions", "Transfers", "Interactions"):
+                continue
+            title = None
+            for r in range(1, ws.max_row + 1):
+                v = ws.cell(r, 1).value
+                if v in labels:
+                    title = labels[v]
+                    continue
+                if v in (None, ""):
+                    title = None
+                    continue
+                if title in wanted and v in spec["pops"] and any(isinstance(ws.cell(r, c).value, (int, float)) for c in range(3, ws.max_column + 1)):
+                    rows.append((ws, r))
+        if not rows:
+            return False
+        ws, r = rows[int(rng.integers(0, len(rows)))]
+        for c in range(3, ws.max_column + 1):
+            if isinstance(ws.cell(r, c).value, (int, float)):
+                ws.cell(r, c).value = None
+        return True
+
+    return f
+
+
 def db_m_wrong_units(spec, wb, rng, fw):
     ws = wb["Parameters"] if "Parameters" in wb.sheetnames else None
     if ws is None:
@@ -781,6 +818,10 @@ DB_MUTATIONS = [
     ("databook:delete-population-sheet", "reject", db_m_delete_pop_sheet),
     ("databook:delete-required-table-sheet", "reject", db_m_delete_tdve_sheet),
     ("databook:blank-row-values", "reject", db_m_blank_row_values),
+    ("databook:blank-row-values[function-parameter]", "reject", db_m_blank_row_values_of("function-parameter")),
+    ("databook:blank-row-values[plain-parameter]", "reject", db_m_blank_row_values_of("plain-parameter")),
+    ("databook:blank-row-values[compartment]", "reject", db_m_blank_row_values_of("compartment")),
+    ("databook:blank-row-values[characteristic]", "reject", db_m_blank_row_values_of("characteristic")),
     ("databook:unit-mismatch", "reject", db_m_wrong_units),
     ("databook:unit-mismatch[same unit word, other time scale]", "reject", db_m_units_other_qualifier),
     ("databook:unit-mismatch[compartment,other valid unit]", "reject", db_m_units_swapped("compartment")),
